@@ -302,13 +302,14 @@ def collect(pid: str, repo: Repo, tier: str = "quick") -> dict:
 
 
 def _thorough_extras(run: "Run") -> None:
-    """Thorough tier: validate the checker itself on the in-memory variant corpus (both directions)
-    and on the committed seeded changes whose patch still applies textually."""
+    """Thorough tier: validate the checker itself on the in-memory variant corpus (both directions), on the committed
+    seeded changes (must be reported) and on the committed behaviour-preserving refactors (must stay silent and decided),
+    each applied as an overlay of the tree under test when its patch still applies textually (otherwise skipped, never failed)."""
     from . import selftest
 
-    res = selftest.run([run.pid], jobs=int(os.environ.get("ZVERIF_JOBS", "16")), root=str(run.repo.root))
+    res = selftest.run([run.pid], jobs=int(os.environ.get("ZVERIF_JOBS", "16")), root=str(run.repo.root), benign=True)
     ok = [r for r in res if r["status"] == "ok"]
-    failed = [r for r in res if r["status"] == "FAILED"]
+    failed = [r for r in res if r["status"] in ("FAILED", "UNDECIDED")]
     run.units["selftest"] = dict(variants=len(res), ok=len(ok), failed=[r["id"] for r in failed], skipped=[r["id"] for r in res if r["status"] == "skipped"],
                                  detail=[dict(id=r["id"], expect=r.get("expect"), status=r["status"], rules=r.get("rules")) for r in res])
     for r in ok:
